@@ -158,8 +158,10 @@ class World2:
         return self.h.hexdigest()
 
     def call(self, fn, *a, **kw):
+        from .world1 import stall_guard
         try:
-            return "ok", fn(*a, **kw)
+            with stall_guard():
+                return "ok", fn(*a, **kw)
         except HarnessError:
             raise
         except Exception as e:
